@@ -512,6 +512,7 @@ func (f *Frame) resolveModifies(st *State, ct *Contract) []modItem {
 				// a map-typed field: its contents as well
 				if mt, ok := types.Unalias(info.Types[x].Type).Underlying().(*types.Map); ok {
 					ref := sf.load(work, loc)
+					sf.noteMapHeaps(mt)
 					for _, part := range []string{"dom", "val", "len"} {
 						out = append(out, modItem{heap: sf.mapHeap(mt, part), ref: ref})
 					}
@@ -538,6 +539,7 @@ func (f *Frame) resolveModifies(st *State, ct *Contract) []modItem {
 				if mt, ok := types.Unalias(info.Types[x].Type).Underlying().(*types.Map); ok {
 					work := st.clone()
 					ref := sf.expr(work, x)
+					sf.noteMapHeaps(mt)
 					for _, part := range []string{"dom", "val", "len"} {
 						out = append(out, modItem{heap: sf.mapHeap(mt, part), ref: ref})
 					}
@@ -567,6 +569,27 @@ func (f *Frame) modFromLoc(loc Loc, text string) []modItem {
 		return nil
 	}
 	panic(unsupported{"modifies: not a heap location: " + text})
+}
+
+// noteMapHeaps makes the sorts of a map type's three heap arrays known to this context.
+func (f *Frame) noteMapHeaps(mt *types.Map) {
+	c := f.c
+	ks, vs := c.sortOf(mt.Key()), c.sortOf(mt.Elem())
+	for _, part := range []string{"dom", "val", "len"} {
+		h := f.mapHeap(mt, part)
+		if _, known := c.heapSort[h]; known {
+			continue
+		}
+		switch part {
+		case "dom":
+			c.heapSort[h] = ArrSort(SInt, ArrSort(ks, SBool))
+		case "val":
+			c.heapSort[h] = ArrSort(SInt, ArrSort(ks, vs))
+		case "len":
+			c.heapSort[h] = ArrSort(SInt, SInt)
+		}
+		globalHeapSorts.Store(h, c.heapSort[h])
+	}
 }
 
 // mayHoldIterator: can a value of static type t be (or directly carry) a memdb.ResultIterator?
@@ -616,17 +639,65 @@ func (e *Engine) checkSpecExprLoose(p *types.Package, pos token.Pos, text string
 }
 
 // calleeEffects: set of heap arrays a function's body may write (transitively), by symbolic discovery.
+// Recursion: a function met again while its own effects are being computed contributes its current approximation;
+// the outermost computation is repeated until its set is stable, and results that depended on an approximation are
+// not cached (they are recomputed when asked for on their own).
 func (f *Frame) calleeEffects(fi *FuncInfo) map[string]bool {
 	eng := f.eng
 	if eff, ok := eng.effects[fi.Fn]; ok {
 		return eff
 	}
 	if eng.effBusy[fi.Fn] {
+		eng.effCycle = true
+		if a := eng.effApprox[fi.Fn]; a != nil {
+			return a
+		}
 		return map[string]bool{}
 	}
 	eng.effBusy[fi.Fn] = true
 	defer delete(eng.effBusy, fi.Fn)
-	// run the body in a scratch context sharing sort declarations is complex; use a scratch Ctx
+	outerCycle := eng.effCycle
+	var eff map[string]bool
+	tainted := false
+	for round := 0; round < 10; round++ {
+		eng.effCycle = false
+		eff = f.effectsOnce(fi)
+		if !eng.effCycle {
+			break
+		}
+		tainted = true
+		prev := eng.effApprox[fi.Fn]
+		same := prev != nil && len(prev) == len(eff)
+		if same {
+			for k := range eff {
+				if !prev[k] {
+					same = false
+					break
+				}
+			}
+		}
+		if eng.effApprox == nil {
+			eng.effApprox = map[*types.Func]map[string]bool{}
+		}
+		eng.effApprox[fi.Fn] = eff
+		if same {
+			break
+		}
+	}
+	eng.effCycle = outerCycle || tainted
+	// cache when nothing approximate was involved, or when this is the outermost computation (its fixpoint is done)
+	if !tainted || len(eng.effBusy) == 1 {
+		eng.effects[fi.Fn] = eff
+	}
+	if os.Getenv("GOVC_DEBUG_EFFECTS") != "" {
+		fmt.Fprintf(os.Stderr, "effects(%s) = %v\n", fi.Fn.Name(), sortedKeys(eff))
+	}
+	return eff
+}
+
+func (f *Frame) effectsOnce(fi *FuncInfo) map[string]bool {
+	eng := f.eng
+	// run the body in a scratch context
 	sc := newCtx(eng, "effects:"+fi.Fn.Name())
 	sc.discovery = 1
 	eff := map[string]bool{}
@@ -660,10 +731,6 @@ func (f *Frame) calleeEffects(fi *FuncInfo) map[string]bool {
 			eff[k] = true
 		}
 	}()
-	eng.effects[fi.Fn] = eff
-	if os.Getenv("GOVC_DEBUG_EFFECTS") != "" {
-		fmt.Fprintf(os.Stderr, "effects(%s) = %v\n", fi.Fn.Name(), sortedKeys(eff))
-	}
 	return eff
 }
 
@@ -766,10 +833,25 @@ func (f *Frame) contractCall(st *State, e *ast.CallExpr, ct *Contract, recv *Ter
 	// a trusted contract's frame is its modifies clause; a trusted contract WITHOUT one trusts only the ensures
 	// clauses: whatever the body may write is unknown afterwards, exactly as for a verified contract
 	if (!ct.Trusted || !ct.HasMod) && fi.Decl.Body != nil {
+		unknown := false
 		for k := range f.calleeEffects(fi) {
 			if !strings.HasPrefix(k, "?") {
 				eff[k] = true
+			} else {
+				unknown = true
 			}
+		}
+		if unknown && !ct.HasMod {
+			// the body leaves the supported subset somewhere, so what it writes cannot be discovered, and there is
+			// no modifies clause to go by: every heap array known to this run may have changed
+			c.note("call to " + ct.Name + ": effects unknown (body outside the subset, no modifies clause) - everything forgotten")
+			for h := range c.heapSort {
+				eff[h] = true
+			}
+			globalHeapSorts.Range(func(k, _ interface{}) bool {
+				eff[k.(string)] = true
+				return true
+			})
 		}
 	}
 	for _, m := range mods {
